@@ -68,10 +68,12 @@ def run(ctx):
                 # the announced body exceeds the limit: it must never be buffered at all (only header bytes may be held)
                 ctx.fail("oracle/rejected-body-buffered", "a body that the taster rejects was buffered: high-water %d bytes; %s limit=%d size=%d"
                          % (hw, where, limit, size), replay=dict(stream=list(stream), chunks=cs, rootmode=mode, highwater=hw))
-            if where == "error" and ec > 1000 and (hw > 65 or not (snaps and snaps[-1]["dead"])):
+            # (what an abandoned connection still has in its buffer is never read again: only live snapshots count)
+            hw_live = max([s_["buf"] for s_ in snaps if not s_["dead"]] or [0])
+            if where == "error" and ec > 1000 and (hw_live > 65 or not (snaps and snaps[-1]["dead"])):
                 # ERROR is always legal and no schema judges it: SIZE_LIMIT is its only bound, applied when the header is complete
                 ctx.fail("oracle/oversized-error-not-refused-at-header", "an ERROR token announcing %d bytes (> SIZE_LIMIT) was not refused when its header "
-                         "was complete: high-water %d bytes, abandoned=%s" % (ec, hw, bool(snaps and snaps[-1]["dead"])),
+                         "was complete: high-water %d bytes while the connection was alive, abandoned=%s" % (ec, hw_live, bool(snaps and snaps[-1]["dead"])),
                          replay=dict(stream=list(stream), chunks=cs, rootmode=mode, highwater=hw))
             if hw >= bound:
                 ctx.fail("oracle/buffer-exceeds-bound", "buffer high-water %d >= 65 + max(limit, SIZE_LIMIT) = %d; %s" % (hw, bound, where),
